@@ -9,7 +9,7 @@
 
 enum { OP_FAST_OVER, OP_GENERAL_ATOP, OP_SAME_TWICE, OP_FILL, OP_REGION, OP_TRAP, OP_SHARED_SRC, OP_GRADIENT, OP_SHARED_GRADIENT, OP_SHARED_CLIPPED_SRC, OP_SHARED_ACCESSOR_SRC, OP_TILE_FILL, OP_SHARED_TILE_SRC, OP_SHARED_TILE_MASK, N_BODY_OPS,
        /* free-running pass only (rows of thousands of pixels are too many scheduling points for the explorer) */
-       OP_WIDE_ROW_NARROW = N_BODY_OPS, OP_WIDE_ROW_FLOAT, OP_WIDE_ROW_MALLOC, N_ALL_OPS };
+       OP_WIDE_ROW_NARROW = N_BODY_OPS, OP_WIDE_ROW_FLOAT, OP_WIDE_ROW_MALLOC, OP_SHARED_SOLID, N_ALL_OPS };
 static const char *body_op_name[N_BODY_OPS] = { "fast-path OVER 8888->8888", "general-path ATOP 8888->0565", "same ADD composite twice (cache hit)", "pixman_fill + fill_rectangles",
                                                 "region32 union/subtract", "rasterize_trapezoid a8", "OVER from the shared source", "linear gradient SRC (general iterators)", "SRC from the shared 4-stop gradient (per-thread origin)",
                                                 "OVER from the shared source that has a two-box client clip with source clipping (per-thread offset)",
@@ -29,7 +29,7 @@ typedef struct {
     pixman_image_t *dst32, *dst16, *dst8, *src32, *grad;
     pixman_region32_t reg;
     /* shared, read-only after its first use on the main thread */
-    pixman_image_t *shared_src, *shared_grad, *shared_clipped, *shared_acc, *shared_tile;
+    pixman_image_t *shared_src, *shared_grad, *shared_clipped, *shared_acc, *shared_tile, *shared_solid;
     uint32_t dwide[2][40]; pixman_image_t *dstwide;
     uint32_t *tile8, *tile16; int tile_ix;       /* one buffer for all threads: 2 rows of TILE_STRIDE_WORDS words; the thread with tile index k owns columns [1+3k, 4+3k) (8 bpp) / [1+2k, 3+2k) (16 bpp) */
     /* private rows wider than the general path's on-stack scanline buffers (8192 bytes per scanline): whatever scratch the library uses
@@ -130,6 +130,12 @@ static void body_teardown(tctx_t *t)
 static void body_run(tctx_t *t, int op)
 {
     switch (op) {
+    case OP_SHARED_SOLID:          /* general 8-bit path from one solid-fill image shared by all threads; the threads ask for rows of different widths (3 / 40 / 2100 pixels) */
+        if (!t->shared_solid) break;
+        if (t->tid % 3 == 0) pixman_image_composite32(PIXMAN_OP_ATOP, t->shared_solid, NULL, t->dst32, 0, 0, 0, 0, 0, 0, DW, DH);
+        else if (t->tid % 3 == 1) pixman_image_composite32(PIXMAN_OP_ATOP, t->shared_solid, NULL, t->dstwide, 0, 0, 0, 0, 0, 0, 40, 2);
+        else pixman_image_composite32(PIXMAN_OP_ATOP, t->shared_solid, NULL, t->wdst16_img, 0, 0, 0, 0, 0, 0, WIDE_NARROW, 1);
+        break;
     case OP_WIDE_ROW_NARROW:       /* general path, 8-bit pipeline, 2100 pixels: 8400 bytes per scanline */
         pixman_image_composite32(PIXMAN_OP_ATOP, t->wsrc_img, NULL, t->wdst16_img, 0, 0, 0, 0, 0, 0, WIDE_NARROW, 1); break;
     case OP_WIDE_ROW_FLOAT:        /* float pipeline, 600 pixels: 9600 bytes per scanline */
